@@ -34,8 +34,8 @@ func (C04) Rule() string {
 // component, not by string prefix
 // ... and names that start with the characters of the whiteout prefix (".", "w", "h"): a whiteout
 // must strip the literal prefix ".wh.", not a character set
-var c04Segs = []string{"a", "b", "c", "a", "b", "ab", "h"}
-var c04Leaf = []string{"a", "b", "c", "x", "y", "ab", "a-", "hosts", "h", ".w", "w"}
+var c04Segs = []string{"a", "b", "c", "a", "b", "ab", "h", "..d", ".e"}
+var c04Leaf = []string{"a", "b", "c", "x", "y", "ab", "a-", "hosts", "h", ".w", "w", "..v"}
 
 func genUniverse(rt *rapid.T) []string {
 	n := rapid.IntRange(3, 10).Draw(rt, "universe")
@@ -166,7 +166,7 @@ func (C04) Gen(rt *rapid.T, tier string) any {
 			p := pick("path")
 			switch k {
 			case "f":
-				add(Entry{Kind: "f", Path: p, Perm: rapid.SampledFrom([]int{0o644, 0o600, 0o755, 0o444}).Draw(rt, "perm"), Data: fmt.Sprintf("L%d:%s\n", li, p)})
+				add(Entry{Kind: "f", Path: p, Perm: rapid.SampledFrom([]int{0o644, 0o600, 0o755, 0o444, 0o4755, 0o2755, 0o1644}).Draw(rt, "perm"), Data: fmt.Sprintf("L%d:%s\n", li, p)})
 			case "d":
 				add(Entry{Kind: "d", Path: p, Perm: rapid.SampledFrom([]int{0o755, 0o700, 0o711}).Draw(rt, "perm"), Slash: rapid.Bool().Draw(rt, "slash")})
 			case "l":
@@ -304,7 +304,7 @@ func c04Probes(sc *C04Scenario) []string {
 		}
 	}
 	for _, p := range sc.Universe {
-		if p != "" && path.Clean(p) == p && !strings.HasPrefix(p, "/") && !strings.HasPrefix(p, "..") {
+		if p != "" && path.Clean(p) == p && !strings.HasPrefix(p, "/") && p != ".." && !strings.HasPrefix(p, "../") {
 			addP(p)
 		}
 	}
